@@ -508,6 +508,50 @@ impl Method for ReversalSignal {
 //@replace self.low.next(value) - self.high.next(value) ==> { let lo__ = self.low.next(value); let hi__ = self.high.next(value); let d__ = lo__ - hi__; proof { assert(reversal_parts(old(self), value, self, &d__, lo__, hi__)); } d__ }
 //@end
 }
+// ---- C08: on a constant stream that starts with the construction value the detectors never fire (no element is strictly above/below its newer neighbours)
+pub open spec fn all_eq_r(v: Seq<R>, s: real) -> bool { forall|i: int| 0 <= i < v.len() ==> (#[trigger] v[i])@ == s }
+pub proof fn upper_reversal_const_step(pre: &UpperReversalSignal, x: ValueType, post: &UpperReversalSignal, out: Action)
+	requires pre.inv(), all_eq_r(pre.window.view(), x@), pre.seeded_with(&x), UpperReversalSignal::step(pre, &x, post, &out)
+	ensures out is None, all_eq_r(post.window.view(), x@), post.is_genuine(), post.index >= 1
+{
+	let vw = post.window.view();
+	assert forall|i: int| 0 <= i < vw.len() implies (#[trigger] vw[i])@ == x@ by { if i < vw.len() - 1 { assert(vw[i] == pre.window.view()[i + 1]); } }
+	let k = pre.index as int;
+	let right = pre.right as int;
+	if out == Action::Buy(255) {
+		// the candidate would have to be strictly above the newest element, which has the same value
+		assert(k >= right && warm_peak_at(vw, k, right));
+		let c = k - right;
+		assert(at(vw, k + 1, k)@ < at(vw, k + 1, c)@);
+	}
+}
+pub proof fn lower_reversal_const_step(pre: &LowerReversalSignal, x: ValueType, post: &LowerReversalSignal, out: Action)
+	requires pre.inv(), all_eq_r(pre.window.view(), x@), pre.seeded_with(&x), LowerReversalSignal::step(pre, &x, post, &out)
+	ensures out is None, all_eq_r(post.window.view(), x@), post.is_genuine(), post.index >= 1
+{
+	let vw = post.window.view();
+	assert forall|i: int| 0 <= i < vw.len() implies (#[trigger] vw[i])@ == x@ by { if i < vw.len() - 1 { assert(vw[i] == pre.window.view()[i + 1]); } }
+	let k = pre.index as int;
+	let right = pre.right as int;
+	if out == Action::Buy(255) {
+		assert(k >= right && warm_trough_at(vw, k, right));
+		let c = k - right;
+		assert(at(vw, k + 1, k)@ > at(vw, k + 1, c)@);
+	}
+}
+pub open spec fn reversal_const_state(r: &ReversalSignal, x: real) -> bool {
+	&&& r.high.inv() && r.low.inv() && all_eq_r(r.high.window.view(), x) && all_eq_r(r.low.window.view(), x)
+	&&& (if r.high.index == 0 { r.high.max_index == 0 && r.high.max_value@ == x } else { r.high.is_genuine() })
+	&&& (if r.low.index == 0 { r.low.min_index == 0 && r.low.min_value@ == x } else { r.low.is_genuine() })
+}
+pub proof fn reversal_const_step(pre: &ReversalSignal, x: ValueType, post: &ReversalSignal, out: Action)
+	requires reversal_const_state(pre, x@), post.high.inv() && post.low.inv(), ReversalSignal::step(pre, &x, post, &out)
+	ensures sv(out) == 0, reversal_const_state(post, x@)
+{
+	let (lo, hi) = choose|lo: Action, hi: Action| #[trigger] reversal_parts(pre, &x, post, &out, lo, hi);
+	upper_reversal_const_step(&pre.high, x, &post.high, hi);
+	lower_reversal_const_step(&pre.low, x, &post.low, lo);
+}
 //@export-end
 } // verus!
 fn main() {}
